@@ -119,4 +119,10 @@ CHECKS = {
          'implies at least k members elected; one seat: a first-preference majority wins. Workload built around coalitions sitting at k quotas -1..+3 ballots (also split evenly over their members), '
          'steered to zero-vote batches, stable-state exclusions and single defeats; ~130k binding obligations, ~55k within 2 ballots of the threshold per quick run.',
     note='Known finding C05/warren-premature-stable-state (classifier: rule warren and an "Iterate (stable)" action in the history). mpls only without undeclared write-ins. Strict rankings only.'),
+ 'C03': dict(level='exploration', ref='DESIGN.md 3/C03 and Appendix A',
+    technique='runtime monitoring, history + executable model: the recorded history of each real count, normalised by state diffs, is compared step by step and digit by digit with the history produced by an executable specification written from the rule text; recorded tie-breaks are checked against what the text permits',
+    text='~29k statutory counts per quick run (8 rule names; ~210k steps, ~12k ties): step kinds, who, rounds, every raw tally, the non-transferable total, quota, keep factors (PRF Meek), '
+         'quotients (QPQ) and winners must equal the specification\'s. The strict text is tried first, then the documented switch subsets; histories needing a switch print the matching known finding, '
+         'histories nothing explains are violations. wigm with arithmetic=fixed precision=4 must reproduce wigm-prf (actions, raw snapshots, dump).',
+    note='Trusted base: six specifications (~100 lines each) in vf/models/specs.py and their adopted readings; seven known text deviations of the code (C03/text-deviation:*), each a named switch. QPQ counts with quotients within twice the tolerance are not evaluated.'),
 }
